@@ -3,13 +3,13 @@ Refinement of the document-level specification `Spec.EditDoc` by the dispatcher 
 `Model.EditDoc` (for `C07_output_eq_edit_spec_partial`).
 -/
 import LolHtml.Lemmas.Edit
-import LolHtml.Lemmas.ElementOps
+import LolHtml.Lemmas.EditElementOps
 import LolHtml.Lemmas.EditDoc
 import LolHtml.Spec.EditDoc
 
-namespace LolHtml.Lemmas.Refine
-open LolHtml LolHtml.Model LolHtml.Spec.Edit LolHtml.Spec.EditDoc LolHtml.Lemmas.Edit
-  LolHtml.Lemmas.ElementOps LolHtml.Lemmas.EditDoc
+namespace LolHtml.Lemmas.EditRefine
+open LolHtml LolHtml.EditModel LolHtml.Spec.Edit LolHtml.Spec.EditDoc LolHtml.Lemmas.Edit
+  LolHtml.Lemmas.EditElementOps LolHtml.Lemmas.EditDoc
 
 /-! ### A. Running the active handlers = applying the collected calls -/
 
@@ -1632,4 +1632,4 @@ theorem rewrite_refines (H : List Handler) (enc : Enc) (toks : List SrcToken)
   rw [ho, hfo, hf.inv, closeAllImplicit_nil_of_clean enc _ _ [] (by rw [hopen]; exact hclean)]
   refine ⟨by simp [List.append_assoc], hf.nofault, hf.rinv.noUnderflow⟩
 
-end LolHtml.Lemmas.Refine
+end LolHtml.Lemmas.EditRefine
